@@ -346,8 +346,8 @@ def scn_history(ctx):
 
     memo = Memo(m)
     n_ops = 5 + ch.draw(28 if not big else 10, "n_ops")
-    cheap = ("geom", "tau_exit_prob", "tau_energy_u", "tau_energy_const", "taus_call", "altDec", "geom_call_seeded", "spec")
-    allst = cheap + ("too", "radio", "eas", "eas", "too", "radio", "altDec_seeded", "taus_call_seeded", "radio_seeded", "mcint", "mcint_too", "eas", "construct")
+    cheap = ("geom", "tau_exit_prob", "tau_energy_u", "tau_energy_const", "taus_call", "altDec", "geom_call_seeded", "spec", "cdf_utils")
+    allst = cheap + ("too", "radio", "eas", "eas", "too", "radio", "altDec_seeded", "taus_call_seeded", "radio_seeded", "mcint", "mcint_too", "eas", "construct", "cdf_utils")
     last_throw = {}
     stages = cheap if big else allst
     maxlen = 20001 if big else 48
@@ -382,6 +382,26 @@ def scn_history(ctx):
             ctx.steps += 1
             L = lambda a, lab="layout": histsim.layout(ch, a, lab)  # noqa: E731
 
+            if st == "cdf_utils":
+                # the public samplers of utils.cdf are built from the long-lived Taus object's own
+                # CDF table (at a table node or off it) and used: the table belongs to the object
+                from nuspacesim.utils import cdf as cdfu
+
+                tq = obj("taus")
+                which = ("grid_inverse_sampler", "nearest_cdf_sampler", "lerp_cdf_sampler", "grid_cdf_sampler")[ch.draw(4, "cdf_sampler")]
+                le = (8.0, 6.0, 12.0, 8.13, 10.25, 7.9)[ch.draw(6, "cdf_energy")]
+                try:
+                    if which == "grid_cdf_sampler":
+                        smp = cdfu.grid_cdf_sampler(tq.tau_cdf_grid)
+                        smp(np.full(5, le), np.array(P["beta_in"][:5]), np.array(P["u"][:5]))
+                    else:
+                        smp = getattr(cdfu, which)(tq.tau_cdf_grid, le)
+                        smp(np.array(P["beta_in"][:5]), np.array(P["u"][:5]))
+                    ctx.probes["cdf_utility_sampler_used"] += 1
+                except Exception:  # noqa: BLE001
+                    ctx.probes["cdf_utility_sampler_raised"] += 1
+                ctx.log(f"op{opi} cdf_utils {which} E={le}")
+                continue
             if st == "construct":
                 # another object of one of the stage classes comes to life (a second run's, say):
                 # the long-lived ones must not notice
